@@ -307,6 +307,17 @@ func (r *resolver) ResolveType(t *parser.Type) (err error) {
 // is -1, otherwise the name the typedef refers to in the included IDL).
 // When such an enum is not found, getEnum returns (nil, -1, "").
 func getEnum(ast *parser.Thrift, name string) (enum *parser.Enum, includeIndex int32, sel string) {
+	return getEnumVisited(ast, name, make(map[string]bool))
+}
+
+// getEnumVisited implements getEnum. The visited set stops the search when a typedef chain comes
+// back to a typedef it has already followed; such a cycle is reported later by ResolveTypedefs.
+func getEnumVisited(ast *parser.Thrift, name string, visited map[string]bool) (enum *parser.Enum, includeIndex int32, sel string) {
+	key := ast.Filename + "\x00" + name
+	if visited[key] {
+		return nil, -1, ""
+	}
+	visited[key] = true
 	c, exist := ast.Name2Category[name]
 	if !exist {
 		return nil, -1, ""
@@ -323,12 +334,12 @@ func getEnum(ast *parser.Thrift, name string) (enum *parser.Enum, includeIndex i
 			panic(fmt.Errorf("expect %q to be an typedef in %q, not found", name, ast.Filename))
 		} else {
 			if r := x.Type.Reference; r != nil {
-				e, _, _ := getEnum(ast.Includes[r.Index].Reference, r.Name)
+				e, _, _ := getEnumVisited(ast.Includes[r.Index].Reference, r.Name, visited)
 				if e != nil {
 					return e, r.Index, r.Name
 				}
 			}
-			e, idx, s := getEnum(ast, x.Type.Name)
+			e, idx, s := getEnumVisited(ast, x.Type.Name, visited)
 			if e != nil && idx == -1 {
 				s = name
 			}
